@@ -81,3 +81,22 @@ def _(u):
     rowlocal(u, "dpp.step", lambda u, B: _step_state(u, B, N),
              lambda u, ins: u.run(D, "DPPEnv._step", SymTD(dict(ins), (ins["i"].shape[0],)), selfobj=env, record=False),
              requires=lambda u, ins, B: u.forall((B,), lambda b: AND(ins["action"].at(b) >= 0, ins["action"].at(b) < N)), tags=("C04",))
+
+
+MCPF = "rl4co/envs/graph/mcp/env.py"
+
+
+@unit("mcp.reset", file=MCPF, func="MCPEnv._reset", props=("C08",))
+def _(u):
+    B, K, Z, I = u.dims("B K Z I")                                   # sets, max set size, items
+    td = u.td(B, membership=((B, K, Z), "f"), weights=((B, I), "f"), n_sets_to_choose=((B, 1), "f"))
+    pre = u.snapshot(td)
+    env = u.obj(MCPF, "MCPEnv", to=lambda d: None)
+    out = u.run(MCPF, "MCPEnv._reset", td, [B], selfobj=env, record=False)
+    b, k, z, i = u.idx((B,), "b"), u.idx((K,), "k"), u.idx((Z,), "z"), u.idx((I,), "i")
+    u.prove("reset.nothing-chosen-every-set-offered", AND(NOT(out["chosen"].at(b, k)), out["action_mask"].at(b, k), out["i"].at(b) == 0))
+    u.prove("reset.instance-kept", AND(out["orig_membership"].at(b, k, z) == pre["membership"].at(b, k, z), out["membership"].at(b, k, z) == pre["membership"].at(b, k, z),
+                                       out["orig_weights"].at(b, i) == pre["weights"].at(b, i), out["weights"].at(b, i) == pre["weights"].at(b, i),
+                                       out["n_sets_to_choose"].at(b, 0) == pre["n_sets_to_choose"].at(b, 0)))
+    u.prove("reset.shapes", AND(*[zint(x) == zint(y) for x, y in zip(tuple(out["chosen"].shape), (B, K))], out["chosen"].dtype == "b", out["i"].dtype == "i", tuple(out.batch_size) == (B,)))
+    u.canary("reset.something-chosen", out["chosen"].at(b, k))
